@@ -439,11 +439,17 @@ func (p *polling) DoClose(fn types.Callable) {
 
 	if p.Writable() {
 		polling_log.Debug("transport writable - closing right away")
+		if verifhook.Enabled {
+			verifhook.Point("polling.DoClose.writableSeen", p)
+		}
 		p.Send([]*packet.Packet{
 			{
 				Type: packet.CLOSE,
 			},
 		})
+		if verifhook.Enabled {
+			verifhook.Point("polling.DoClose.beforeOnClose", p)
+		}
 		onClose()
 	} else if p.Discarded() {
 		polling_log.Debug("transport discarded - closing right away")
